@@ -5,6 +5,9 @@ use serde_json::{json, Map, Value};
 use std::collections::HashSet;
 use std::time::Instant;
 
+/// Process-wide switch: print violations as they are found (set by child jobs that may die).
+pub static EAGER: std::sync::atomic::AtomicBool = std::sync::atomic::AtomicBool::new(false);
+
 #[derive(Clone, Debug)]
 pub struct Viol {
     /// short sort key: smaller = simpler witness
@@ -44,6 +47,8 @@ pub struct Acc {
     pub pathological: u64,
     /// bucket of `evaluations` in which the last sample was taken (spreads samples over the run)
     pub sample_mark: u64,
+    /// print violations as they are found (child processes)
+    pub eager: bool,
 }
 
 impl Acc {
@@ -63,6 +68,10 @@ impl Acc {
         // out an unrelated violation
         let signed = v.detail.get("signature").is_some();
         self.count(if signed { "disagreements_with_signature" } else { "disagreements" }, 1);
+        // workloads that may take their process down (memory corruption) report what they saw right away
+        if (self.eager || EAGER.load(std::sync::atomic::Ordering::Relaxed)) && self.viols.len() < 4 {
+            println!("VIOL {}", json!({"weight": v.weight, "what": v.what, "detail": v.detail}));
+        }
         self.push_viol(v);
     }
     fn push_viol(&mut self, v: Viol) {
@@ -247,7 +256,12 @@ pub fn finish(cx: &RunCtx, acc: Acc, fin: Finish) -> i32 {
     if distinct < 2 {
         self_fail.push(format!("only {} distinct non-trivial cases", distinct));
     }
+    let no_san = std::env::var("CVH_NO_SAN").is_ok();
     for (k, min) in &fin.require {
+        // development switch: without the sanitizer jobs their observations cannot be required
+        if no_san && (k.starts_with("miri_") || k.starts_with("asan_") || k.starts_with("tsan_")) {
+            continue;
+        }
         let got = acc.counters.get(k).copied().unwrap_or(0);
         if got < *min {
             self_fail.push(format!("observed {} = {} (< {} required for the run to count)", k, got, min));
